@@ -27,6 +27,7 @@ const (
 	endInconclusive // unsupported feature or solver unknown
 	endAbandon      // path cut after a recorded violation
 	endBoundCut     // path left the stated enumeration bound (count/length too large to enumerate)
+	endOtherShard   // path belongs to another shard of this function's path space
 )
 
 type pathEnd struct {
@@ -91,6 +92,7 @@ type undoRec struct {
 }
 
 type Stats struct {
+	OtherShard int // decision prefixes left to other shards
 	Paths         int
 	PathsByEnd    map[string]int
 	Instrs        int64
@@ -130,6 +132,10 @@ type Options struct {
 	NoByteDomain  bool    // send single-byte feasibility questions to the solver too
 	SolverLog     string
 	CheckRewrites bool
+	// Path-space sharding: with ShardN > 1 this engine explores only the paths
+	// whose first ShardDepth decisions hash to ShardI (mod ShardN); paths with
+	// fewer decisions are explored by every shard.
+	ShardN, ShardI, ShardDepth int
 }
 
 type Engine struct {
@@ -492,6 +498,9 @@ func (e *Engine) runOnePath(fn *ssa.Function) {
 	case endBoundCut:
 		e.Stats.PathsByEnd["bound-cut"]++
 		e.Stats.BoundCuts++
+	case endOtherShard:
+		e.Stats.OtherShard++
+		e.Stats.Paths-- // not a path of this shard
 	}
 }
 
@@ -544,17 +553,27 @@ func (e *Engine) whereFunc() string {
 // ensureStack pushes the constraint of the current decision if it is not on
 // the solver stack yet.
 func (e *Engine) assertDecision(idx int, c *term.Term) {
-	if idx < e.sdepth {
-		return
+	if idx >= e.sdepth {
+		if idx != e.sdepth {
+			panic(internalf("assertDecision: idx %d sdepth %d", idx, e.sdepth))
+		}
+		e.S.Push()
+		if !c.IsTrue() {
+			e.S.Assert(c)
+		}
+		e.sdepth++
 	}
-	if idx != e.sdepth {
-		panic(internalf("assertDecision: idx %d sdepth %d", idx, e.sdepth))
+	if e.Opt.ShardN > 1 && idx == e.Opt.ShardDepth-1 {
+		h := uint64(1469598103934665603)
+		for i := 0; i <= idx; i++ {
+			d := &e.trace[i]
+			h = (h ^ (d.alts[d.cur] + 0x9e37)) * 1099511628211
+			h ^= h >> 29
+		}
+		if int(h%uint64(e.Opt.ShardN)) != e.Opt.ShardI {
+			panic(pathEnd{kind: endOtherShard})
+		}
 	}
-	e.S.Push()
-	if !c.IsTrue() {
-		e.S.Assert(c)
-	}
-	e.sdepth++
 }
 
 // addPC records a path-condition conjunct and its literals.
